@@ -66,4 +66,21 @@ theorem proxy_header_parts :
     Generated.C09.pxySplitArgs = ["in.RemoteAddr().String()", "in.LocalAddr().String()"] :=
   ⟨rfl, rfl, rfl⟩
 
+/-- The socket contract the tunnel machine assumes (orderly close, writes without deadline) is not
+disturbed by the code: the tcp tunnel handlers call no socket-option, deadline or half-close method at all;
+the websocket handler only bounds its handshake read and clears that deadline before the copy phase;
+`server.go`'s `conn` wrapper sets per-call deadlines only under a configured `ReadTimeout`/`WriteTimeout`. -/
+theorem no_socket_options_in_tunnel_handlers :
+    Generated.C09.tcpSockOpts = [] ∧ tunnelHandlersTouchSocketOptions = false ∧
+    Generated.C09.wsSockOpts =
+      ["ws_handler.go newWSHandler: out.SetReadDeadline(time.Now().Add(time.Second))",
+       "ws_handler.go newWSHandler: out.SetReadDeadline(time.Time{})"] ∧
+    Generated.C09.serverSockOpts =
+      ["server.go *conn.Read: c.c.SetReadDeadline(time.Now().Add(c.ReadTimeout)) if c.ReadTimeout > 0",
+       "server.go *conn.Write: c.c.SetWriteDeadline(time.Now().Add(c.WriteTimeout)) if c.WriteTimeout > 0",
+       "server.go *conn.SetDeadline: c.c.SetDeadline(t)",
+       "server.go *conn.SetReadDeadline: c.c.SetReadDeadline(t)",
+       "server.go *conn.SetWriteDeadline: c.c.SetWriteDeadline(t)"] :=
+  ⟨rfl, rfl, rfl, rfl⟩
+
 end Fabio.Props.C09Facts
